@@ -60,7 +60,7 @@ def gen_query(rng, V, facts, extra=None):
     if r < 0.8:
         # several results: juxtaposed parenthesised expressions, some failing
         parts = []
-        for _ in range(rng.randint(2, 4)):
+        for _ in range(rng.choice([2, 2, 3, 3, 4, 4, 9, 17, 33])):
             parts.append(rng.choice(["(%s)" % value(), "(%s)" % quantity(), "(1 / 0)", "(1 m + 1 s)", "(round(2.5))", "(zzqqxx)"] + (getattr(V, "error_parts", None) or [])))
         return " ".join(parts)
     if rng.random() < 0.5 and extra:
@@ -135,8 +135,12 @@ def shard(p):
                 continue
             want, judged = expected_stdout(items, exact_mode)
             args = [p["any"]] + (["--exact"] if exact_mode else []) + ["--", q]
+            env_run = env
+            if rng.random() < 0.12:
+                env_run = dict(env, RUST_LOG=rng.choice(["trace", "anything=trace", "debug"]))      # logging must not change what is printed on stdout
+                acc.count("invocations_with_logging_enabled")
             try:
-                r = subprocess.run(args, env=env, stdout=subprocess.PIPE, stderr=subprocess.PIPE, timeout=120)
+                r = subprocess.run(args, env=env_run, stdout=subprocess.PIPE, stderr=subprocess.PIPE, timeout=120)
             except subprocess.TimeoutExpired:
                 acc.inconc("any timed out on %r" % q)
                 continue
